@@ -1,7 +1,7 @@
 (** C19 — threshold metrics count and accumulate exactly what their definition says.
     Property theorems only (model: Model/Metrics.v, tied to evaluate/metrics.py by correspondence K12). *)
 From Coq Require Import QArith ZArith List Bool.
-From IV Require Import QL NP Metrics C19_proofs.
+From IV Require Import QL NP Metrics C19_proofs C19_spells.
 Import ListNotations.
 Open Scope Q_scope.
 
@@ -42,6 +42,11 @@ Theorem C19_runs_positive : forall m,
   Forall (fun n => (0 < n)%nat) (runs m).
 Proof. exact @runs_positive. Qed.
 Print Assumptions C19_runs_positive.
+
+(** the coded run-length trick equals the maximal-run specification for series of every length *)
+Theorem C19_spells_eq_runs : forall m, spells m = map Z.of_nat (runs m).
+Proof. exact spells_eq_runs. Qed.
+Print Assumptions C19_spells_eq_runs.
 
 Theorem C19_spells_eq_runs_bounded : forall m,
   (length m <= 12)%nat -> m <> [] -> spells m = map Z.of_nat (runs m).
